@@ -1271,7 +1271,11 @@ func JSONDecFields(d *StructDef, outer []uint32, j *JV, m JSONMode) ([]*Value, e
 			continue
 		}
 		if g == nil {
-			if m.Strict && f.Mask != nil {
+			// A user-declared constructor without fields: the primer's rule for True ("чаще всего опускается") is
+			// worded for the type True only, its rule for masked fields ("строго если установлен бит маски") for all
+			// fields; the generator treats every field-less constructor as True. Not settled: both spellings admitted.
+			fieldless := f.T.Kind == KStruct && len(f.T.Def.Fields) == 0
+			if m.Strict && f.Mask != nil && !fieldless {
 				return nil, reject("strict: masked field %s is written when its bit is set", f.Name)
 			}
 			ev, ok := JSONEmptyValue(f.T, env)
